@@ -153,6 +153,26 @@ fn judge_cap(c: &Concrete<'_>, whole: bool, size: &Option<WRes>, n_ref: &mut Opt
     (r, v)
 }
 
+/// Marks a case whose failing step is the unchecked write into exactly the announced size.
+const UNCHECKED_CAP: usize = usize::MAX >> 12;
+
+/// Measure, then hand `write_into_unchecked` a buffer of exactly the announced size.
+fn judge_unchecked(c: &Concrete<'_>, n: usize) -> Option<(String, String)> {
+    // measured again: the two calls follow each other as they do inside `write_into`
+    match guarded_size(c) {
+        Some(WRes::Ok(m)) if m == n => {}
+        Some(other) => return Some(("size_changes_between_queries".to_string(), format!("calculate_size announced {n}, asked again it gave {other:?}"))),
+        None => return None,
+    }
+    let mut buf = vec![0x5au8; n];
+    match guarded(|| c.write_unchecked(&mut buf)) {
+        Ok(Some(w)) if w == n => None,
+        Ok(Some(w)) => Some(("wrote_other_than_announced".to_string(), format!("announced {n}, write_into_unchecked(exactly {n} bytes) returned {w}"))),
+        Ok(None) => None,
+        Err(p) => Some(("panicked_with_sufficient_buffer".to_string(), format!("announced {n}, write_into_unchecked(exactly {n} bytes) unwound: {} at {}", p.msg, p.short_loc()))),
+    }
+}
+
 fn case_json(spec: &Spec, cap: usize, hash_key: u64, probes: u64, tape: &[u32]) -> J {
     J::obj().set("spec", spec.to_json()).set("cap", cap).set("hash_key", hash_key).set("probes", probes).set("tape", tape.to_vec())
 }
@@ -275,6 +295,19 @@ impl Check for C06 {
                 }
                 buf[..cap].copy_from_slice(&prefill[..cap]);
             }
+            // the unchecked writer handed exactly the announced size (what `write_into` does after
+            // its checks, and what a caller who measured first may do itself): returns n, no unwind
+            if first.is_none() {
+                if let Some(WRes::Ok(n)) = &size {
+                    if *n <= 1 << 16 {
+                        ctx.stats.events += 1;
+                        ctx.stats.count("unchecked_writes_into_exactly_n", 1);
+                        if let Some(v) = judge_unchecked(c, *n) {
+                            first = Some((UNCHECKED_CAP, v.0, v.1));
+                        }
+                    }
+                }
+            }
             match &size {
                 Some(WRes::Ok(_)) => ctx.stats.count("configs_accepted", 1),
                 Some(_) => ctx.stats.count("configs_rejected", 1),
@@ -303,6 +336,16 @@ impl Check for C06 {
         let v = realise_probed(&plan, hash_key, probes, |c| {
             let size = guarded_size(c);
             lg.push(format!("calculate_size() -> {size:?}"));
+            if cap == UNCHECKED_CAP {
+                return match &size {
+                    Some(WRes::Ok(n)) if *n <= 1 << 16 => {
+                        let v = judge_unchecked(c, *n);
+                        lg.push(format!("calculate_size(); write_into_unchecked(exactly {n} bytes) -> {v:?}"));
+                        v
+                    }
+                    _ => None,
+                };
+            }
             let mut n_ref = None;
             let mut buf = vec![0xa5u8; cap.max(8) + 8];
             if size.is_none() {
@@ -332,13 +375,13 @@ impl Check for C06 {
             out.push(case_json(&s, cap, key, probes, &tape));
             // the interesting capacity moves with the size
             for c in [0usize, 4, 8, 12, 16, 20, 24, 28, 32] {
-                if c != cap {
+                if c != cap && s.weight() <= 2000 && cap != UNCHECKED_CAP {
                     out.push(case_json(&s, c, key, probes, &tape));
                 }
             }
         }
         for c in [0usize, cap / 2, cap.saturating_sub(4), cap.saturating_sub(1)] {
-            if c != cap {
+            if c != cap && cap != UNCHECKED_CAP {
                 out.push(case_json(&spec, c, key, probes, &tape));
             }
         }
